@@ -1749,26 +1749,20 @@ func (x *Exec) loopContract(s ast.Stmt) (*LoopContract, int) {
 			return lc, ord
 		}
 	}
-	// any other unit of the same function
-	for _, u := range x.cs.Units {
-		if u.PkgDir == x.uc.PkgDir && u.Func == x.uc.Func {
-			if lc, ok := u.Loops[ord]; ok {
-				return lc, ord
-			}
-		}
-	}
-	// loops bound by anchor text (robust against loops added or removed elsewhere in the function)
+	// loops bound by anchor text (robust against loops added or removed elsewhere in the function): the unit's own
+	// and those of the function-level contract; loop contracts of OTHER regions of the same function are not used
 	var txt string
-	for _, u := range x.cs.Units {
-		if u.PkgDir == x.uc.PkgDir && u.Func == x.uc.Func {
-			for _, lc := range u.ALoops {
-				if txt == "" {
-					txt = normWS(x.src(s))
-				}
-				if strings.HasPrefix(txt, lc.Anchor) {
-					lc.Ordinal = ord
-					return lc, ord
-				}
+	for _, u := range []*UnitContract{x.uc, x.fuc} {
+		if u == nil {
+			continue
+		}
+		for _, lc := range u.ALoops {
+			if txt == "" {
+				txt = normWS(x.src(s))
+			}
+			if strings.HasPrefix(txt, lc.Anchor) {
+				lc.Ordinal = ord
+				return lc, ord
 			}
 		}
 	}
